@@ -201,3 +201,95 @@ func H_C14_crosslinks() {
 	vAllocCheck()
 	vAssert("returned", true)
 }
+
+type ZIfaceMaps struct {
+	M map[interface{}]int32
+	A interface{}
+}
+
+// H_C14_odd_structure: well-formed octets with unusual content, the kind a damaged or hostile peer produces and a
+// one-octet mutation of a valid message rarely reaches: class definitions whose field names are empty, one
+// arbitrary octet, duplicated, capitalised; a definition without fields; lists, maps and binaries as keys of maps
+// that land in Go maps keyed by interface{}; entry points used before any reader was given.
+func H_C14_odd_structure() {
+	tm, _ := vExtractAll(&ZOuter{P: &ZInner{}}, &ZIfaceMaps{}, &ZEmpty{})
+	tm["imap"] = reflect.TypeOf(map[interface{}]interface{}{})
+	tm["smap"] = reflect.TypeOf(map[string]int32{})
+	c := vUint8("c")
+	vAssume(c < 0x80)
+	one := string([]byte{c})
+	listKey := refCat([]byte{0x58}, refInt(1), refInt(5))
+	mapKey := refCat([]byte{'H'}, refStr("a"), refInt(1), []byte{'Z'})
+	binKey := []byte{0x22, 1, 2}
+	objKey := refCat(refClassDef("ZInner", []string{"n", "s"}), []byte{0x60}, refInt(1), refStr("s"))
+	keys := [][]byte{listKey, mapKey, binKey, objKey, {'N'}, refCat([]byte{0x5b})}
+	var in []byte
+	switch vChoice("msg", 12) {
+	case 0:
+		in = refCat(refClassDef("ZInner", []string{"", "s"}), []byte{0x60}, refInt(1), refStr("s"))
+	case 1:
+		in = refCat(refClassDef("ZInner", []string{one, "s"}), []byte{0x60}, refInt(1), refStr("s"))
+	case 2:
+		in = refCat(refClassDef("ZInner", []string{"n", "n", "N", "S", "s"}), []byte{0x60}, refInt(1), refInt(2), refInt(3), refStr("S"), refStr("s"))
+	case 3:
+		in = refCat(refClassDef("ZInner", nil), []byte{0x60})
+	case 4:
+		in = refCat(refClassDef(one, []string{"n"}), []byte{0x60}, refInt(1))
+	case 5:
+		in = refCat([]byte{'M'}, refStr("imap"), keys[vChoice("key", len(keys))], refInt(1), []byte{'Z'})
+	case 6:
+		in = refCat([]byte{'M'}, refStr("smap"), keys[vChoice("key", len(keys))], refInt(1), []byte{'Z'})
+	case 7: // the interface-keyed map field of a struct
+		in = refCat(refClassDef("ZIfaceMaps", []string{"m", "a"}), []byte{0x60},
+			[]byte{'H'}, keys[vChoice("key", len(keys))], refInt(1), []byte{'Z'}, []byte{'N'})
+	case 8: // a map keyed by a list, held in an interface field, then referred to as a key itself
+		in = refCat(refClassDef("ZIfaceMaps", []string{"a", "m"}), []byte{0x60},
+			listKey, []byte{'H', 0x51, 0x91}, refInt(1), []byte{'Z'})
+	case 9:
+		in = refCat([]byte{'H'}, keys[vChoice("key", len(keys))], refInt(1), keys[vChoice("key2", len(keys))], refInt(2), []byte{'Z'})
+	case 10: // a class definition redefined with another arity between two instances
+		in = refCat([]byte{0x57}, refClassDef("ZInner", []string{"n", "s"}), []byte{0x60}, refInt(1), refStr("s"),
+			refClassDef("ZInner", []string{"s"}), []byte{0x61}, refStr("t"), []byte{0x60}, refInt(2), refStr("u"), []byte{'Z'})
+	case 11:
+		in = refCat(refClassDef("ZEmpty", []string{one}), []byte{0x60}, refInt(1))
+	}
+	vAllocBound(65536 + len(in))
+	vStepLimit(200000 + 20000*len(in))
+	switch vChoice("entry", 3) {
+	case 0:
+		ToObject(in, tm)
+	case 1:
+		d := NewDecoder(&vCountingReader{b: in}, tm)
+		d.ReadObject()
+		d.ReadObject()
+	case 2:
+		s := NewSerializer(tm, nil)
+		s.ToObject(in)
+		s.Read()
+	}
+	vStepLimit(0)
+	vAllocCheck()
+	vAssert("returned", true)
+}
+
+// H_C14_no_reader: streaming entry points called before any reader was supplied return an error.
+func H_C14_no_reader() {
+	tm := vZooTypeMap()
+	switch vChoice("entry", 4) {
+	case 0:
+		_, err := NewSerializer(tm, nil).Read()
+		vAssert("error-not-panic", err != nil)
+	case 1:
+		_, err := NewDecoder(nil, tm).ReadObject()
+		vAssert("error-not-panic", err != nil)
+	case 2:
+		p := NewDecoderPool(1, tm)
+		_, err := p.Get().(*Decoder).ReadObject()
+		vAssert("error-not-panic", err != nil)
+	case 3:
+		d := NewDecoder(&vCountingReader{b: []byte{0x91}}, tm)
+		d.Reset(nil)
+		_, err := d.ReadObject()
+		vAssert("error-not-panic", err != nil)
+	}
+}
